@@ -416,6 +416,45 @@ func (c *Ctx) signerVerifierTables(rule string) bool {
 		}
 		ver[unquote(k)] = r
 	}
+	// the same table written as a package-level map literal curve name -> struct, looked up by the name: the
+	// function must hand out the looked-up entry (or a copy) only when the lookup found one
+	if len(ver) == 0 {
+		if g, lk := c.globalTableLookup(pec, func(p string) bool { return p == "$0" }); g != nil {
+			foundOnly := false
+			if lk.CommaOk {
+				if okv := extractOf2(lk, 1); okv != nil {
+					chk := &GCheck{Name: "table lookup found the name", NoDescend: true, MatchOK: func(c *Ctx, v ssa.Value, env Env) bool { return v == ssa.Value(lk) }}
+					nonNil := func(in ssa.Instruction) bool {
+						r, isR := in.(*ssa.Return)
+						if !isR || len(r.Results) == 0 {
+							return false
+						}
+						k, isK := r.Results[0].(*ssa.Const)
+						return !(isK && k.IsNil())
+					}
+					foundOnly, _, _ = c.Guard(pec, nil, chk, nonNil)
+				}
+			}
+			if foundOnly {
+				for _, mu := range c.globalMapUpdates(g) {
+					var r row
+					if a := structOfValue(mu.Value); a != nil {
+						ft := c.fieldTable(a, nil)
+						if len(ft["curve"]) == 1 {
+							r.curve = ft["curve"][0]
+						}
+						if len(ft["keySize"]) == 1 {
+							r.width = ft["keySize"][0]
+						}
+						if len(ft["hash"]) == 1 {
+							r.hash = ft["hash"][0]
+						}
+					}
+					ver[unquote(c.Path(mu.Key, nil))] = r
+				}
+			}
+		}
+	}
 	wantNames := map[string]string{"P-256": "crypto/elliptic.P256()", "P-384": "crypto/elliptic.P384()", "P-521": "crypto/elliptic.P521()", "secp256k1": "github.com/btcsuite/btcd/btcec/v2.S256()"}
 	var names []string
 	for n := range ver {
@@ -441,27 +480,62 @@ func (c *Ctx) signerVerifierTables(rule string) bool {
 	// signer width computed from the key's own curve: ceil(BitSize/8)
 	{
 		c.Analysed(sign)
-		bs := "invoke<crypto/elliptic.Curve>.Params[$0.privateKey.PublicKey.Curve]().BitSize"
-		want := "phi(((" + bs + " / 8) + 1)|(" + bs + " / 8))"
 		cp := c.Fn("util/ecsigner", "copyPadded")
+		const keyCurve = "$0.privateKey.PublicKey.Curve"
+		// ceilOf: in function h, value v is ⌈BitSize/8⌉ of the curve with path cv: φ(BitSize/8 + 1 | BitSize/8) with the
+		// increment on the true edge of BitSize % 8 > 0
+		ceilOf := func(h *ssa.Function, v ssa.Value, cv string) bool {
+			bs := "invoke<crypto/elliptic.Curve>.Params[" + cv + "]().BitSize"
+			p := c.Path(v, nil)
+			if p != "phi((("+bs+" / 8) + 1)|("+bs+" / 8))" && p != "phi(("+bs+" / 8)|(("+bs+" / 8) + 1))" {
+				return false
+			}
+			inc := false
+			forEachInstr(h, func(in ssa.Instruction) {
+				if bo, ok := in.(*ssa.BinOp); ok && c.Path(bo, nil) == "(("+bs+" % 8) > 0)" {
+					for _, e := range boolEdges(bo, true) {
+						for _, i2 := range e.to.Instrs {
+							if b2, ok2 := i2.(*ssa.BinOp); ok2 && c.Path(b2, nil) == "(("+bs+" / 8) + 1)" {
+								inc = true
+							}
+						}
+					}
+				}
+			})
+			return inc
+		}
 		okW := 0
 		for _, cl := range callsTo(sign, cp) {
-			if c.Path(cl.Call.Args[1], nil) == want {
+			w := cl.Call.Args[1]
+			if ceilOf(sign, w, keyCurve) {
 				okW++
+				continue
 			}
-		}
-		inc := false
-		forEachInstr(sign, func(in ssa.Instruction) {
-			if bo, ok := in.(*ssa.BinOp); ok && c.Path(bo, nil) == "(("+bs+" % 8) > 0)" {
-				for _, e := range boolEdges(bo, true) {
-					for _, i2 := range e.to.Instrs {
-						if b2, ok2 := i2.(*ssa.BinOp); ok2 && c.Path(b2, nil) == "(("+bs+" / 8) + 1)" {
-							inc = true
+			// or computed by a helper of the signer package from the key's curve
+			if hc, isC := w.(*ssa.Call); isC {
+				if h := hc.Call.StaticCallee(); h != nil && inModule(h) && h.Blocks != nil && len(hc.Call.Args) == len(h.Params) {
+					ci := -1
+					for i, a := range hc.Call.Args {
+						if c.Path(a, nil) == keyCurve {
+							ci = i
+						}
+					}
+					if ci >= 0 {
+						all := len(returnsOf(h)) > 0
+						for _, r := range returnsOf(h) {
+							if len(r.Results) != 1 || !ceilOf(h, r.Results[0], fmt.Sprintf("$%d", ci)) {
+								all = false
+							}
+						}
+						if all {
+							c.Analysed(h)
+							okW++
 						}
 					}
 				}
 			}
-		})
+		}
+		inc := okW > 0
 		c.Check(rule, "signer:width=ceil(BitSize/8)", okW == 2 && inc, sign.Pos(), fmt.Sprintf("r and s are padded to ⌈BitSize/8⌉ of the signing key's curve (%d padded values)", okW))
 		// hash of the message with the curve's hash
 		okH := false
